@@ -23,8 +23,8 @@ RULE = ("models x N in 1..4 x every missing-data mask of the n_y x N panel x std
 MANIFEST_ENTRY = dict(level="exploration", design="DESIGN.md section 4 / C03",
     technique="bounded-exhaustive enumeration of all missing-data masks x configurations on generated state-space models; explicit joint-Gaussian stacking oracle (one linear solve per conditioning set)",
     text="For 12 (quick) / 17 (thorough) solved stationary models (1-4 states, 1-2 observables, with/without measurement shocks, lagged state in the measurement equation, AR(2), coupled oscillating AR(2) pair with complex roots, forward-looking, log observable), every span length N<=3 (quick; N<=4 thorough) and EVERY missing-data mask of the n_y x N panel, under 3 std settings (incl. time-varying stds from data), deviation on/off, rescale_variance on/off and 2 dense data vectors, the filter's neg_log_likelihood (two entry points), per-period contributions (sum and each one, zero for empty periods), var_scale, predict/update/smooth means and variances of every variable and shock, prediction errors and prediction MSE matrices are compared with exact conditioning of the stacked joint normal law.",
-    note="Trusted: numpy linear algebra and ref/gauss.py; the solution matrices are taken from get_solution() (decided by C01). Standard deviations are compared as variances; shock stds that the implementation does not report (NaN) are pinned to the set measured on the unchanged tree. Unit-root models / diffuse initialisation are not covered by this check.")
-ASSUMPTIONS = ["the first-order solution matrices are correct (C01)", "initial condition = stationary law under the model's assigned stds"]
+    note="Trusted: numpy linear algebra and ref/gauss.py; the solution matrices are taken from get_solution() (decided by C01). Standard deviations are compared as variances; shock stds that the implementation does not report (NaN) are pinned to the set measured on the unchanged tree. Unit-root models are covered under the default diffuse_method='fixed_unknown' only (oracle: GLS-concentrated likelihood in the coordinates of the reported triangular solution); approx_diffuse is not covered.")
+ASSUMPTIONS = ["the first-order solution matrices are correct (C01)", "initial condition = stationary law under the model's assigned stds; for unit roots: fixed unknown initial condition of the unit-root block of the reported triangular solution"]
 
 START = ir.qq(2021, 1)
 
@@ -59,6 +59,19 @@ def models(tier):
             mk(2, (1, 1), (0, 1), -1, "saddle", meas="two", log=True),
         ]
     return L
+
+
+def unit_root_models(tier="quick"):
+    """trend + cycle models under the default diffuse_method="fixed_unknown" (no constant: flat steady state)"""
+    S = linre.LinSpec
+    rw = dict(terms=[(0, -1, 1.0)], const=0.0, shock=True)
+    cyc = dict(terms=[(1, -1, 0.6)], const=0.0, shock=True)
+    cyc2 = dict(terms=[(1, -1, 0.5), (1, -2, 0.2), (0, 0, 0.1), (0, -1, -0.1)], const=0.0, shock=True)
+    return [
+        S(1, [rw], [dict(terms=[(0, 0, 1.0)], const=0.0, shock=True)], False, "ur_local_level"),
+        S(2, [rw, cyc], [dict(terms=[(0, 0, 1.0), (1, 0, 1.0)], const=0.0, shock=True)], False, "ur_trend_cycle_one"),
+        S(2, [rw, cyc2], [dict(terms=[(0, 0, 1.0), (1, 0, 1.0)], const=0.0, shock=True), dict(terms=[(1, 0, 1.0), (1, -1, 0.5)], const=0.0, shock=False)], False, "ur_trend_cycle_two"),
+    ]
 
 
 def build(spec):
@@ -139,7 +152,12 @@ def check_config(spec, m, N, setting, dev, res, ctx, only_mask=None):
     su_t = [[(tv["std_" + n][t] if tv else base["std_" + n]) for n in unames] for t in range(N)]
     sw_t = [[(tv["std_" + n][t] if tv else base["std_" + n]) for n in wnames] for t in range(N)]
     H = sol.H if len(wnames) else np.zeros((len(ynames), 0))
-    J = gauss.Joint(sol.T, sol.P, sol.K, sol.Z, H, sol.D, su0, su_t, sw_t, deviation=dev)
+    nunit = int(sol.num_unit_roots)
+    if nunit:
+        # unit roots: fixed unknown initial condition, concentrated likelihood (default diffuse_method)
+        J = gauss.JointFixedUnknown(sol.Ta, sol.Pa, sol.Ka, sol.Ua, sol.Za, H, sol.D, nunit, su0, su_t, sw_t, deviation=dev)
+    else:
+        J = gauss.Joint(sol.T, sol.P, sol.K, sol.Z, H, sol.D, su0, su_t, sw_t, deviation=dev)
     yperm = [ynames.index(spec.obs(i)) for i in range(ny)]      # spec order -> solution order
     is_log = spec.log
 
@@ -153,6 +171,11 @@ def check_config(spec, m, N, setting, dev, res, ctx, only_mask=None):
                 pat = pat * 0.1
             # data in the space of the oracle (logs for log models), and in levels for the implementation
             ydata = {(t, yperm[i]): J.my[t][yperm[i]] + pat[i, t] for t in range(N) for i in range(ny)}
+            if nunit:
+                if J.estimate_delta(cells, ydata) > 1e8:
+                    res.exclude("unknown_initial_condition_not_identified")
+                    continue
+                res.count("unit_root_cases")
             lev = np.array([[ydata[(t, yperm[i])] for t in range(N)] for i in range(ny)])
             lev = np.exp(lev) if is_log else lev
             for rescale in (False, True):
@@ -214,22 +237,22 @@ def check_config(spec, m, N, setting, dev, res, ctx, only_mask=None):
                 targets = []
                 for t in range(N):
                     for i, n_ in xzero:
-                        targets.append((n_, t, J.Ax[t][i:i + 1], J.mx[t][i:i + 1], is_log))
+                        targets.append((n_, t, J.Ax[t][i:i + 1], J.mx[t][i:i + 1], is_log, J.Bx[t][i:i + 1] if nunit else None))
                     for i, n_ in enumerate(ynames):
-                        targets.append((n_, t, J.Ay[t][i:i + 1], J.my[t][i:i + 1], is_log))
+                        targets.append((n_, t, J.Ay[t][i:i + 1], J.my[t][i:i + 1], is_log, J.By[t][i:i + 1] if nunit else None))
                     for i, n_ in enumerate(unames):
-                        targets.append((n_, t, J.Au[t][i:i + 1], np.zeros(1), False))
+                        targets.append((n_, t, J.Au[t][i:i + 1], np.zeros(1), False, None))
                     for i, n_ in enumerate(wnames):
-                        targets.append((n_, t, J.Aw[t][i:i + 1], np.zeros(1), False))
+                        targets.append((n_, t, J.Aw[t][i:i + 1], np.zeros(1), False, None))
                 cellset = set(cells)
                 for kind, sel in (("predict", lambda t: [c for c in cells if c[0] < t]),
                                   ("update", lambda t: [c for c in cells if c[0] <= t]),
                                   ("smooth", lambda t: cells)):
                     cache = {}
-                    for (n_, t, A, mvec, logged) in targets:
+                    for (n_, t, A, mvec, logged, Bt) in targets:
                         med = f.get(kind + "_med", n_, N)
                         std = f.get(kind + "_std", ("log(%s)" % n_) if logged else n_, N)
-                        em, ev = J.condition(sel(t), ydata, A, mvec)
+                        em, ev = J.condition(sel(t), ydata, A, mvec, Bt)
                         em, ev = float(em[0]), float(max(ev[0, 0], 0.0)) * vs
                         observed_cell = n_[0] == "o" and (t, ynames.index(n_)) in cellset
                         must_report = n_[0] == "v" or observed_cell      # what the implementation stores (pinned)
@@ -254,7 +277,8 @@ def check_config(spec, m, N, setting, dev, res, ctx, only_mask=None):
                         continue
                     for t in range(N):
                         if mask[i, t]:
-                            em, _ = J.condition([c for c in cells if c[0] < t], ydata, J.Ay[t][yperm[i]:yperm[i] + 1], J.my[t][yperm[i]:yperm[i] + 1])
+                            em, _ = J.condition([c for c in cells if c[0] < t], ydata, J.Ay[t][yperm[i]:yperm[i] + 1], J.my[t][yperm[i]:yperm[i] + 1],
+                                                J.By[t][yperm[i]:yperm[i] + 1] if nunit else None)
                             got_pe = np.log(pe[t]) if is_log else pe[t]       # for log-variables the level entry is the ratio
                             if not np.isclose(got_pe, ydata[(t, yperm[i])] - em[0], rtol=1e-8, atol=1e-8):
                                 bad("predict_err", "%s[%d]: filter %.12g, exact %.12g" % (spec.obs(i), t, pe[t], ydata[(t, yperm[i])] - em[0]))
@@ -289,7 +313,7 @@ def shard(item, res, ctx):
 
 def run(ctx, total, info):
     shards = []
-    for spec in models(ctx.tier):
+    for spec in models(ctx.tier) + unit_root_models(ctx.tier)[: (2 if ctx.quick else 3)]:
         ny = len(spec.meas)
         maxN = (3 if ny == 2 else 4) if ctx.quick else 4
         for N in range(1, maxN + 1):
@@ -300,7 +324,8 @@ def run(ctx, total, info):
     engine.run_shards(__name__, "shard", shards, ctx, total)
     info["exhaustive"] = True
     info["models"] = len(models(ctx.tier))
-    info["floors"] = {"filter_calls": (total.evaluations, 8000), "mask_shapes": (len(total.classes.get("mask_shape", ())), 20)}
+    info["floors"] = {"filter_calls": (total.evaluations, 8000), "mask_shapes": (len(total.classes.get("mask_shape", ())), 20),
+                      "unit_root_cases": (total.counters.get("unit_root_cases", 0), 500)}
     # the moments the implementation reports (finite cells) are pinned: none of these classes may disappear
     c = total.counters
     for key in ("predict_med_v", "predict_med_o", "predict_med_e", "predict_med_w", "update_med_v", "update_med_o", "update_med_e",
